@@ -4,15 +4,26 @@ import (
 	"bytes"
 	"fmt"
 	"math"
+	"runtime"
 	"runtime/pprof"
 	"sort"
 	"strings"
+	"testing/synctest"
 
 	"github.com/aukilabs/hagall/models"
 	"github.com/aukilabs/hagall/modules/odal"
 	"github.com/aukilabs/hagall/modules/vikja"
 	"github.com/prometheus/client_golang/prometheus"
+	"github.com/prometheus/client_golang/prometheus/collectors"
 )
+
+func init() {
+	// The default registry also holds the Go runtime and process collectors;
+	// gathering them after every step would dominate the run time. They are
+	// not part of hagall.
+	prometheus.Unregister(collectors.NewGoCollector())
+	prometheus.Unregister(collectors.NewProcessCollector(collectors.ProcessCollectorOpts{}))
+}
 
 func float32frombits(b uint32) float32 { return math.Float32frombits(b) }
 
@@ -85,7 +96,8 @@ func (e *Exec) checkServerState(actor *MConn) {
 			return
 		}
 		if d := e.diffSession(ss, s); len(d) > 0 {
-			e.fail(tags, "server state of session %q differs from the reference: %s", s.ID, strings.Join(d, "; "))
+			dt, dm := joinDiffs(d)
+			e.fail(tags+","+dt, "server state of session %q differs from the reference: %s", s.ID, dm)
 			return
 		}
 	}
@@ -102,15 +114,21 @@ func (e *Exec) checkServerState(actor *MConn) {
 		if g := sessionGauge() - e.Gauge0; g != float64(len(e.M.Live)) {
 			e.fail("C07", "session gauge moved by %v since the case started, %d session(s) are live", g, len(e.M.Live))
 		}
-		if n := countGoroutines("models.(*Session).StartDispatchFrames"); n != len(e.M.Live) {
-			e.fail("C07", "%d frame worker(s) running, %d session(s) are live", n, len(e.M.Live))
+		synctest.Wait()
+		if n := runtime.NumGoroutine() - e.G0; n != len(e.M.Live) {
+			// confirm with the goroutine profile (slower, but names the workers)
+			if w := countGoroutines("models.(*Session).StartDispatchFrames"); w != len(e.M.Live) {
+				e.fail("C07", "%d frame worker(s) running, %d session(s) are live", w, len(e.M.Live))
+			}
 		}
 	}
 }
 
-func (e *Exec) diffSession(ss *models.Session, s *MSession) []string {
-	var out []string
-	add := func(f string, a ...any) { out = append(out, fmt.Sprintf(f, a...)) }
+func (e *Exec) diffSession(ss *models.Session, s *MSession) []Diff {
+	var out []Diff
+	tag := ""
+	add := func(f string, a ...any) { out = append(out, Diff{tag, fmt.Sprintf(f, a...)}) }
+	tag = "C06,C07"
 
 	got := map[uint32]bool{}
 	for _, p := range ss.GetParticipants() {
@@ -127,6 +145,7 @@ func (e *Exec) diffSession(ss *models.Session, s *MSession) []string {
 	if ss.ParticipantCount() != len(got) {
 		add("participant count %d but %d participants listed", ss.ParticipantCount(), len(got))
 	}
+	tag = "C05,C06,C11"
 	ents := map[uint32]bool{}
 	for _, en := range ss.Entities() {
 		ents[en.ID] = true
@@ -149,6 +168,7 @@ func (e *Exec) diffSession(ss *models.Session, s *MSession) []string {
 			add("entity %d missing on the server", id)
 		}
 	}
+	tag = "C12,C06"
 	ecs := ss.GetEntityComponents()
 	comps := map[CompKey][]byte{}
 	for _, c := range ecs.ListAll() {
@@ -157,6 +177,7 @@ func (e *Exec) diffSession(ss *models.Session, s *MSession) []string {
 	if d := diffComps(comps, s.Comps, 0); d != "" {
 		add("components: %s", d)
 	}
+	tag = "C12,C10"
 	for name, id := range s.TypeByName {
 		if g, err := ecs.GetTypeID(name); err != nil || g != id {
 			add("type name %q resolves to %d (%v), expected %d", name, g, err, id)
@@ -165,6 +186,7 @@ func (e *Exec) diffSession(ss *models.Session, s *MSession) []string {
 			add("type id %d resolves to %q (%v), expected %q", id, g, err, name)
 		}
 	}
+	tag = "C13,C06"
 	tids := append([]uint32{}, s.TypeOrder...)
 	for _, tid := range tids {
 		var subs []uint32
@@ -182,6 +204,7 @@ func (e *Exec) diffSession(ss *models.Session, s *MSession) []string {
 			add("subscribers of type %d: server %v, reference %v", tid, subs, want)
 		}
 	}
+	tag = "C16,C06"
 	if e.Cfg.has("vikja") {
 		if st, ok := ss.ModuleState("vikja"); ok {
 			gotA := map[string]MAction{}
@@ -229,6 +252,14 @@ func (e *Exec) diffSession(ss *models.Session, s *MSession) []string {
 			add("server has no odal state but the reference holds assets")
 		}
 	}
-	sort.Strings(out)
+	sortDiffs(out)
 	return out
+}
+
+func (e *Exec) liveSig() string {
+	var b strings.Builder
+	for _, s := range e.M.Live {
+		fmt.Fprintf(&b, "%d,", s.Seq)
+	}
+	return b.String()
 }
